@@ -14,7 +14,8 @@ FUNCTIONS = ["wannierberri.run_grid.run (restart=True branch and normal branch)"
 BOUNDS = dict(quick=dict(grid="NKdiv 2x2x1 / 2x1x1", total_iterations="n = 2 (3 in one case)", splits="every stopping point k < n, remaining iterations in one step or two; continuation from an earlier iteration than the last stored one (explicit restart_iteration)",
                          storage="allow_restart, dump_results", symmetry="none, C4z", listing="every order of the factor files (symbolic permutation)",
                          restart_iteration="-1 (latest) and explicit"),
-              thorough=dict(grid="as quick + 2x2x2", total_iterations="n <= 3", splits="all", storage="both", symmetry="none, C4z, Inversion", listing="all orders",
+              thorough=dict(grid="as quick + 2x2x2", total_iterations="n <= 3 (n = 3 also with C4z / C2z on 2x2x1: splits [1,2], [2,1], [1,1,1], [0,1,2]; continuation of a 3-iteration run from iteration 0, 1, 2)",
+                            splits="all", storage="both", symmetry="none, C4z, C2z, Inversion", listing="all orders",
                             restart_iteration="-1, explicit"))
 EXPLANATION = ("Two executions of the real run() share the same symbolic per-K results and priorities: one uninterrupted, one stopped after k iterations and continued with "
                "restart=True (once or twice) from the files the first part wrote (real pickle/npy files in a temp dir). glob.glob is shadowed to return the factor files in "
@@ -191,6 +192,17 @@ def cases(tier, seed):
     if not q:
         out.append(Case("2x1x1 noSym n=3 splits=[2,1] dump mesh=(2,1,1)", case_restart, dict(NKdiv=(2, 1, 1), gens=[], n=3, splits=[2, 1], store=Dm, adpt_mesh=(2, 1, 1)), timeout=3000))
         out.append(Case("2x2x2 Inversion n=2 splits=[1,1]", case_restart, dict(NKdiv=(2, 2, 2), gens=["Inversion"], n=2, splits=[1, 1], store=A), timeout=3000))
+        # deeper histories: three iterations with symmetry, every stopping point, both storage modes; continuation from each earlier iteration of a 3-iteration run
+        for gens in (["C4z"], ["C2z"]):
+            for splits in ([1, 2], [2, 1], [1, 1, 1], [0, 1, 2]):
+                for name, st in (("restart", A), ("dump", Dm)):
+                    if (name == "dump" and splits not in ([2, 1], [1, 1, 1])) or (gens == ["C2z"] and (splits != [1, 1, 1] or name == "dump")):
+                        continue
+                    out.append(Case(f"2x2x1 gens={gens} n=3 splits={splits} store={name}", case_restart, dict(NKdiv=(2, 2, 1), gens=gens, n=3, splits=splits, store=st), timeout=6000))
+        for j in (0, 1, 2):
+            out.append(Case(f"2x2x1 gens=['C4z'] n=3 continued from the earlier iteration {j} store=restart", case_restart_earlier,
+                            dict(NKdiv=(2, 2, 1), gens=["C4z"], n=3, j=j, store=A), timeout=6000))
+
     return out
 
 
